@@ -107,16 +107,15 @@ Section Loop.
     Ok (e_finish s).
 End Loop.
 
-(* LZ10CompressionFormat::compress, machine level *)
+(* LZ10CompressionFormat::compress, machine level; first the size guard of F21 (bytes.len() > 0xFFFFFF) *)
 Definition compress10_m (m : mode) (x : list N) : outcome (list N) :=
+  if 0xFFFFFF <? lenN x then Err ETooLarge else
   compress_loop_m m 0x12 (Some 17) tok10 (header10 (lenN x)) x.
 
-(* LZ13CompressionFormat::compress, machine level throughout: header value (LZ13Machine), reservation, main loop *)
+(* LZ13CompressionFormat::compress, machine level throughout: size guard, header value (LZ13Machine), reservation
+   (LZ13Machine.compress13_reserve), main loop *)
 Definition compress13_mm (m : mode) (x : list N) : outcome (list N) :=
+  if too_large13 x then Err ETooLarge else
   h <- calculate_lz13_header_m x ;;
-  let n := lenN x in
-  a <- add_w W64 m 12 n ;;
-  b <- add_w W64 m n 7 ;;
-  c <- add_w W64 m a (N.shiftr b 3) ;;
-  if ISIZE_MAX <? c then Panic PAlloc
-  else compress_loop_m m 0x1000 None tok11 (header13 h n) x.
+  _ <- compress13_reserve m (lenN x) ;;
+  compress_loop_m m 0x1000 None tok11 (header13 h (lenN x)) x.
